@@ -157,6 +157,13 @@ func lay(t *Term) []seg {
 		layFail("call %s in byte position", t.Name)
 	case "index":
 		return []seg{{"raw(" + t.Key() + ")", -1}}
+	case "bin":
+		// string concatenation
+		if t.Name == "+" && len(t.Args) == 2 {
+			if b, ok := t.Typ.Underlying().(*types.Basic); ok && b.Info()&types.IsString != 0 {
+				return append(append([]seg(nil), lay(t.Args[0])...), lay(t.Args[1])...)
+			}
+		}
 	}
 	layFail("unsupported term %s (%s)", t.Op, trunc(t.Key(), 80))
 	return nil
@@ -206,41 +213,86 @@ func cut(ss []seg, lo, hi int) []seg {
 	return out
 }
 
-// layBuffer: fixed-size buffer built by index stores and copies.
+// segLen: the byte length of a segment as a linear form (known n, or len(<value>) for
+// raw/utf8/str segments of unknown length).
+func segLen(s seg) (linForm, bool) {
+	if s.n >= 0 {
+		return linForm{c: int64(s.n), k: map[string]int64{}}, true
+	}
+	for _, p := range []string{"raw(", "utf8(", "str("} {
+		if strings.HasPrefix(s.s, p) && strings.HasSuffix(s.s, ")") && !strings.Contains(s.s, "[") {
+			return linForm{k: map[string]int64{"builtin.len(" + s.s[len(p):len(s.s)-1] + ")": 1}}, true
+		}
+	}
+	return linForm{}, false
+}
+
+// bytesOf: a string-typed source copied into a byte buffer contributes its utf8 bytes.
+func bytesOf(ss []seg) []seg {
+	out := make([]seg, len(ss))
+	for i, s := range ss {
+		if strings.HasPrefix(s.s, "str(") {
+			s.s = "utf8(" + s.s[4:]
+		}
+		out[i] = s
+	}
+	return out
+}
+
+// layBuffer: buffer built by index stores and copies: a fixed-size array / made slice
+// with writes at constant offsets, or a made slice of symbolic length whose writes sit
+// at the prefix sums of their lengths and cover it exactly.
 func layBuffer(t *Term) []seg {
 	type wr struct {
-		off int
-		ss  []seg
+		off  linForm
+		ss   []seg
+		byte bool
 	}
 	var writes []wr
 	size := -1
+	var symSize *linForm
 	cur := t
 	for {
 		switch {
 		case cur.Op == "opaque" && cur.Name == "copied":
-			off, ok := cur.Args[2].Int()
-			if !ok {
-				layFail("copy at symbolic offset")
-			}
-			writes = append(writes, wr{int(off), lay(cur.Args[1])})
+			writes = append(writes, wr{off: lin(cur.Args[2]), ss: bytesOf(lay(cur.Args[1]))})
 			cur = cur.Args[0]
 			continue
 		case cur.Op == "updidx":
-			i, ok := cur.Args[1].Int()
-			if !ok {
-				layFail("store at symbolic index")
-			}
-			writes = append(writes, wr{int(i), []seg{{"byte(" + cur.Args[2].Key() + ")", 1}}})
+			writes = append(writes, wr{off: lin(cur.Args[1]), ss: []seg{{"byte(" + cur.Args[2].Key() + ")", 1}}})
 			cur = cur.Args[0]
 			continue
 		case cur.Op == "zero":
 			size = arrayLen(cur.Typ)
+			if size < 0 && cur.Typ != nil {
+				// zero content of a made slice: its length is the make's length argument (below)
+			}
 		case cur.Op == "deref" || cur.Op == "make":
-			// made slice of unknown content
+			// made slice of zero content
 		default:
 			layFail("buffer base %s", cur.Op)
 		}
 		break
+	}
+	allConst := true
+	for _, w := range writes {
+		if !w.off.isConst() {
+			allConst = false
+		}
+		for _, s := range w.ss {
+			if s.n < 0 {
+				allConst = false
+			}
+		}
+	}
+	if !allConst {
+		_ = symSize
+		return laySymbolicBuffer(t, func() (out [][2]any) {
+			for i := len(writes) - 1; i >= 0; i-- {
+				out = append(out, [2]any{writes[i].off, writes[i].ss})
+			}
+			return
+		}())
 	}
 	// later writes come first in the list: apply in reverse (oldest first), newer overwrite
 	type cell struct {
@@ -249,11 +301,8 @@ func layBuffer(t *Term) []seg {
 	}
 	var cells []cell
 	for i := len(writes) - 1; i >= 0; i-- {
-		off := writes[i].off
+		off := int(writes[i].off.c)
 		for _, s := range writes[i].ss {
-			if s.n < 0 {
-				layFail("write of unknown length into a fixed buffer: %s", s.s)
-			}
 			// drop overlapped older cells
 			var keep []cell
 			for _, c := range cells {
@@ -281,6 +330,45 @@ func layBuffer(t *Term) []seg {
 	}
 	if size > pos {
 		out = append(out, seg{fmt.Sprintf("zero(%d)", size-pos), size - pos})
+	}
+	return out
+}
+
+// laySymbolicBuffer: writes (oldest first) at symbolic offsets.  Accepted shape: the
+// writes, ordered by program order, form a chain - each starts where the previous one
+// ended (equal linear forms), the first at 0 - and no write is repeated.  The result is
+// the concatenation; a trailing zero tail of unknown length cannot be excluded unless the
+// buffer's length is known, so the made length must equal the final offset when the
+// base term exposes it.
+func laySymbolicBuffer(t *Term, writes [][2]any) []seg {
+	pos := linForm{k: map[string]int64{}}
+	var out []seg
+	for _, w := range writes {
+		off := w[0].(linForm)
+		if !off.equal(pos) {
+			layFail("write at offset %s does not continue the buffer at %s (only prefix-sum layouts are recognised)", off, pos)
+		}
+		for _, s := range w[1].([]seg) {
+			l, ok := segLen(s)
+			if !ok {
+				layFail("write of a segment with underivable length: %s", s.s)
+			}
+			out = append(out, s)
+			pos = pos.add(l, 1)
+		}
+	}
+	// the made length, when visible, must be covered exactly
+	var made *Term
+	t.Walk(func(x *Term) bool {
+		if made == nil && x.Op == "make" && x.Name == "slice" && len(x.Args) > 0 {
+			made = x
+		}
+		return made == nil
+	})
+	if made != nil {
+		if ml := lin(made.Args[0]); !ml.equal(pos) {
+			layFail("buffer of length %s is written up to %s only", ml, pos)
+		}
 	}
 	return out
 }
@@ -429,35 +517,62 @@ func propC17(c *Ctx) {
 				continue
 			}
 			o.Sites++
-			rel, n := p.Relation(len(p.Events), keyIs("bytes.Compare(a, b)"), func(t *Term) bool { return t.Key() == "0" })
-			// facts are equalities with -1/0/1: derive the outcome from them
-			outcome := ""
-			for _, v := range []string{"-1", "0", "1"} {
-				v := v
-				if p.HasFact(len(p.Events), func(at *Term, pol bool) bool { return pol && eqAtom(at, "bytes.Compare(a, b)", v) }) {
-					outcome = v
+			// the comparison outcomes {-1,0,1} consistent with every fact this path carries about
+			// bytes.Compare(a, b) (equalities of a switch, `< 0`, `>= 0`, `== -1`, ... alike)
+			var outcomes []string
+			for _, v := range []int64{-1, 0, 1} {
+				consistent := true
+				for i := range p.Events {
+					ev := &p.Events[i]
+					if ev.Kind != EvFact {
+						continue
+					}
+					rf, ok := factRel(ev.Cond, ev.Pol)
+					if !ok {
+						continue
+					}
+					x, y, r := rf.X, rf.Y, rf.Rel
+					if y.Key() == "bytes.Compare(a, b)" {
+						x, y, r = y, x, flipRel(r)
+					}
+					cst, isC := y.Int()
+					if x.Key() != "bytes.Compare(a, b)" || !isC {
+						continue
+					}
+					var have uint8 = rEQ
+					if v < cst {
+						have = rLT
+					} else if v > cst {
+						have = rGT
+					}
+					if r&have == 0 {
+						consistent = false
+					}
+				}
+				if consistent {
+					outcomes = append(outcomes, strconv.FormatInt(v, 10))
 				}
 			}
-			_ = rel
-			_ = n
 			got, err := layoutOf(p.Ret[0])
 			if err != nil {
 				o.Undecide("layout not derivable: " + err.Error())
 				continue
 			}
 			want := ""
-			switch outcome {
+			switch strings.Join(outcomes, ",") {
 			case "-1":
 				want = "sha3(raw(a)‖raw(b))"
-			case "0", "1":
+			case "0", "1", "0,1":
 				want = "sha3(raw(b)‖raw(a))"
 			default:
-				o.Fail(c.W.Pos(fn.Pos()), "a returning path is not determined by the comparison outcome (result "+got+")", c.Dump(p, -1))
+				o.Fail(c.W.Pos(fn.Pos()), "a returning path is not determined by the comparison outcome (outcomes "+strings.Join(outcomes, ",")+", result "+got+")", c.Dump(p, -1))
 				continue
 			}
-			seen[outcome] = true
+			for _, oc := range outcomes {
+				seen[oc] = true
+			}
 			if got != want {
-				o.Fail(c.W.Pos(fn.Pos()), "outcome "+outcome+" hashes "+got+", want "+want, c.Dump(p, -1))
+				o.Fail(c.W.Pos(fn.Pos()), "outcome "+strings.Join(outcomes, ",")+" hashes "+got+", want "+want, c.Dump(p, -1))
 			}
 		}
 		for _, v := range []string{"-1", "0", "1"} {
@@ -555,8 +670,10 @@ func propC17(c *Ctx) {
 							o.Fail(c.W.Pos(fn.Pos()), "result depends on global "+x.Name, nil)
 						}
 					case "make":
-						if !(x.Name == "slice" && len(x.Args) > 0 && x.Args[0].IsConst() && x.Args[0].Name == "0") {
-							o.Fail(c.W.Pos(fn.Pos()), "result depends on a made "+x.Name+" of unknown content", nil)
+						// a made slice is zero-initialised by the language: deterministic content.
+						// Maps and channels are not byte content and stay rejected.
+						if x.Name != "slice" {
+							o.Fail(c.W.Pos(fn.Pos()), "result depends on a made "+x.Name, nil)
 						}
 					case "free", "lookup", "range", "next":
 						o.Fail(c.W.Pos(fn.Pos()), "result depends on "+x.Op+" "+x.Name, nil)
